@@ -131,10 +131,10 @@ func C03(c *run.Check) {
 			}
 		}
 	}
-	c.Rule = fmt.Sprintf("forests with <=%d nodes over {a,b,text,comment,PI} x decorations D0-D2: %d multi-step paths over 13 axes x {node(),*} (and attribute/namespace steps after reverse axes) from EVERY context node; forests with <=%d nodes x D0-D2: %d paths, pairwise unions, count() of unions and association shapes from the root. Oracle on the implementation's own answer: no node twice, no foreign cursor, strictly monotone in document order, ascending without reverse axis and for unions; plus identity-set equality with the reference (union = sorted set union, count = inclusion-exclusion). non-trivial = distinct (expression, context kind, non-empty size)", n, len(fromAll), n+1, len(fromRoot))
+	c.Rule = fmt.Sprintf("forests with <=%d nodes over {a,b,text,comment,PI} x decorations D0-D2, D5: %d multi-step paths over 13 axes x {node(),*} (and attribute/namespace steps after reverse axes) from EVERY context node; forests with <=%d nodes x D0-D2, D5: %d paths, pairwise unions, count() of unions and association shapes from the root. Oracle on the implementation's own answer: no node twice, no foreign cursor, strictly monotone in document order, ascending without reverse axis and for unions; plus identity-set equality with the reference (union = sorted set union, count = inclusion-exclusion). non-trivial = distinct (expression, context kind, non-empty size)", n, len(fromAll), n+1, len(fromRoot))
 	shapesA := c01Shapes(n)
 	shapesB := c01Shapes(n + 1)
-	decos := []int{adoc.D0, adoc.D1, adoc.D2}
+	decos := []int{adoc.D0, adoc.D1, adoc.D2, adoc.D5}
 	r := newXRunner(c, "C03", c01Env)
 	r.extra = c03Order
 	type job struct {
